@@ -33,7 +33,7 @@ func verifHarness_C15_buildURL() {
 	// a decoy route; its literal segment is longer than any value the bounds allow, so that no
 	// built path can fall under it (a path that an earlier route of the table also matches goes
 	// to that route by the priority rules of C01 - no BuildURL could change that)
-	r.GET("/otherroute/{x}", verifNop)
+	r.GET("/otherroute/{x}", verifNop).NamedTo("decoy", r)
 	var rt *Route
 	switch cfg % 3 {
 	case 0:
@@ -88,8 +88,9 @@ func verifHarness_C15_buildURL() {
 			}
 			x := r.BuildURL("target", args...)
 			path, query = x.Path, x.RawQuery
-		case 2: // builder
+		case 2: // builder - one that has already built the URL of another route
 			b := NewBuildRequestURL()
+			_ = r.BuildURL("decoy", b.Params(M{"{x}": "1"}))
 			m := M{}
 			for i, v := range vars {
 				m["{"+v.name+"}"] = vals[i]
